@@ -10,6 +10,8 @@ import PdshVerif.Pcp.MeetsSpec
 import PdshVerif.Pcp.Overwrite
 import PdshVerif.Pcp.Merge
 import PdshVerif.Pcp.Recopy
+import PdshVerif.Pcp.FanOut
+import PdshVerif.Props.C03
 
 /-! # C11  pdcp/rpdcp reproduce the source tree exactly on every target
 
@@ -1140,6 +1142,109 @@ example :
     (sink xo (sink xo xfs (send xso xsrcs)).1 (send xso xsrcs)).1 [[119], [100], [116], [101]] =
       some (.file 0o640 (some ⟨3000, 250⟩) [88]) ∧
     (∀ r ∈ (sink xo (sink xo xfs (send xso xsrcs)).1 (send xso xsrcs)).2.1, r = Reply.ack) := by
+  decide +kernel
+
+/-! ## forward copy to N targets: the fan-out LTS of C03 composed with one sender session per target -/
+
+open PdshVerif.Dsh in
+/-- **Every target of a forward copy gets exactly one complete sender session.**  In EVERY execution of the
+product of `dsh()`'s fan-out LTS (Props/C03) with one receiver per target on that target's own file system
+(Pcp/FanOut.lean) -- any fanout, either wait construct, any schedule of dispatcher and workers, the byte transfers of
+different targets interleaved in any way -- once `dsh()` has returned, for every target `i` of the list:
+the remote command was started exactly once and torn down exactly once (C03 `exit_after_all`, imported), the
+client thread wrote each byte of its stream exactly once, and the receiver on that target is in the state
+`run o fs stream`: the single-receiver run every other theorem of this file speaks about. -/
+theorem forward_every_target {v : Fan.Variant} {f : Nat} {ts : List FanOut.Target} {ls : List FanOut.PLabel}
+    {s : FanOut.PSt} (he : FanOut.PExec ts (FanOut.pinit v f ts) ls s) (hf : Fan.Final s.fan)
+    (i : Nat) (t : FanOut.Target) (ht : ts[i]? = some t) :
+    s.rcv[i]? = some (run t.o t.fs t.stream, t.stream.length) ∧
+    (FanOut.proj ls).count (.w i .connectBegin) = 1 ∧ (FanOut.proj ls).count (.w i .destroyEnd) = 1 ∧
+    ls.count (.byte i) = t.stream.length := by
+  have hfe := FanOut.proj_exec he
+  have hi : i < ts.length := (List.getElem?_eq_some_iff.1 ht).1
+  have hinv := FanOut.pinv_exec he
+  have hfi : Fan.Inv s.fan := Fan.inv_exec (Fan.inv_init v f ts.length) hfe
+  have hlen : s.fan.ws.length = ts.length := by have := (Fan.exec_params hfe).2.2; simpa [FanOut.pinit, Fan.init] using this
+  have hdone : Fan.pc s.fan i = .done := hfi.fin (by rw [hf]; rfl) i (by omega)
+  have hw : s.fan.ws[i]? = some .done := Fan.getElem?_of_getD hdone (by decide)
+  have hir : i < s.rcv.length := by rw [hinv.len]; exact hi
+  obtain ⟨r, hr⟩ : ∃ r, s.rcv[i]? = some r := ⟨_, List.getElem?_eq_getElem hir⟩
+  have hg := hinv.good i t .done r ht hw hr
+  simp only [FanOut.Good] at hg
+  obtain ⟨c1, c2, _⟩ := C03.exit_after_all hfe hf i hi
+  refine ⟨by rw [hr, hg], c1, c2, ?_⟩
+  have := FanOut.fed_count he i r hr
+  rw [hg] at this
+  exact this.symm
+
+open PdshVerif.Dsh in
+/-- **Every reachable target holds a copy** (`copy_roundtrip` and `copy_meets_spec` on every target of the final
+list).  The targets may differ in everything that belongs to the host -- file system, working directory, umask --;
+each satisfies the hypotheses of `copy_roundtrip` for ITS file system, and its client thread sends `send so srcs`
+(the sessions share only the pre-expanded list, which no thread writes: Pcp/ClientStatics.lean).  Then, whatever the
+schedule, after `dsh()` has returned EVERY target `i` holds `recvKids ... (namedSrcs so srcs)` below its destination,
+has acknowledged every record, and -- for the pair as repaired -- passes `Spec.checkKids` without a discrepancy. -/
+theorem forward_copy_all_targets {v : Fan.Variant} {f : Nat} {ts : List FanOut.Target} {ls : List FanOut.PLabel}
+    {s : FanOut.PSt} (he : FanOut.PExec ts (FanOut.pinit v f ts) ls s) (hf : Fan.Final s.fan)
+    (so : SOpts) (srcs : List (Str × Tree)) (budget : Nat) (hsrc : SrcsOk so srcs)
+    (hgood : GoodKids budget (namedSrcs so srcs))
+    (hall : ∀ t ∈ ts, t.stream = send so srcs ∧ CntOk t.o ∧ so.preserve = t.o.preserve ∧ t.o.fsize = none ∧
+      t.o.dest.length + budget < PCP_PATH_MAX ∧
+      ∃ D, resolve t.fs t.o.cwd t.o.dest = some D ∧ t.fs.isDir D = true ∧
+        ∀ n k, (n, k) ∈ namedSrcs so srcs → FreshBelow t.fs (D ++ [n]))
+    (i : Nat) (t : FanOut.Target) (ht : ts[i]? = some t) :
+    ∃ st D, s.rcv[i]? = some (st, (send so srcs).length) ∧ resolve t.fs t.o.cwd t.o.dest = some D ∧
+      st.fs = recvKids t.o so.subsec t.fs D (namedSrcs so srcs) ∧ (∀ r ∈ st.out, r = Reply.ack) ∧
+      (Faithful t.o so.subsec → ∀ listing : List Path, (∀ x, x ∈ listing ↔ st.fs x ≠ none) →
+        Spec.checkKids t.o.preserve st.fs listing D (namedSrcs so srcs) = []) := by
+  obtain ⟨hstream, hc, hp, hnf, hb, D, hres, hdir, hfresh⟩ := hall t (List.mem_of_getElem? ht)
+  obtain ⟨h1, _⟩ := forward_every_target he hf i t ht
+  obtain ⟨r1, r2⟩ := copy_roundtrip t.o hc hnf so hp t.fs D srcs budget hres hdir hsrc hb hgood hfresh
+  refine ⟨run t.o t.fs t.stream, D, by rw [h1, hstream], hres, ?_, ?_, ?_⟩
+  · rw [hstream]; exact r1
+  · intro r hr
+    rw [hstream] at hr
+    exact r2 r (by simp only [sink, List.mem_reverse]; exact hr)
+  · intro hfa listing hl
+    rw [hstream] at hl ⊢
+    exact copy_meets_spec t.o hc so hp hfa t.fs D srcs budget hres hdir hsrc hb hgood hfresh listing hl
+
+/-- non-vacuity: two targets with the file system, options and sources of `copy_roundtrip`'s example, fanout 2, the
+two sessions interleaved BYTE BY BYTE: the schedule is an execution of the product, `dsh()` returns, and both
+targets hold `t/e` with the source's byte, mode and time -/
+def fwdTargets : List FanOut.Target := [⟨xo, xfs, send xso xsrcs⟩, ⟨xo, xfs, send xso xsrcs⟩]
+
+open PdshVerif.Dsh.Fan FanOut.PLabel in
+def fwdSched : List FanOut.PLabel :=
+  [fan (.d .lock), fan (.d (.create 0)), fan (.d .unlock), fan (.d .lock), fan (.d (.create 1)), fan (.d .unlock),
+   fan (.w 0 .connectBegin), fan (.w 1 .connectBegin), fan (.w 0 .connectEnd), fan (.w 1 .connectEnd)] ++
+  (List.replicate (send xso xsrcs).length [byte 0, byte 1]).flatten ++
+  [fan (.w 1 .destroyBegin), fan (.w 0 .destroyBegin), fan (.w 0 .destroyEnd), fan (.w 1 .destroyEnd),
+   fan (.w 0 .lock), fan (.w 0 .signal), fan (.w 0 .unlock), fan (.w 1 .lock), fan (.w 1 .signal), fan (.w 1 .unlock),
+   fan (.d .lock), fan (.d .unlock), fan (.d .ret)]
+
+example :
+    ∃ s, FanOut.PExec fwdTargets (FanOut.pinit .whileWait 2 fwdTargets) fwdSched s ∧ Dsh.Fan.Final s.fan ∧
+      ∀ i, i < 2 → ∃ st k, s.rcv[i]? = some (st, k) ∧
+        st.fs [[119], [100], [116], [101]] = some (.file 0o640 (some ⟨3000, 250⟩) [88]) := by
+  have hsome : (FanOut.prun fwdTargets (FanOut.pinit .whileWait 2 fwdTargets) fwdSched).isSome = true := by
+    decide +kernel
+  obtain ⟨s, hs⟩ := Option.isSome_iff_exists.1 hsome
+  have hfin : ((FanOut.prun fwdTargets (FanOut.pinit .whileWait 2 fwdTargets) fwdSched).map (·.fan.dpc)) =
+      some .returned := by decide +kernel
+  have he := FanOut.pexec_of_prun fwdSched hs
+  have hf : Dsh.Fan.Final s.fan := by
+    rw [hs] at hfin
+    simpa [Dsh.Fan.Final] using hfin
+  refine ⟨s, he, hf, ?_⟩
+  intro i hi
+  have hti : fwdTargets[i]? = some ⟨xo, xfs, send xso xsrcs⟩ := by
+    match i, hi with
+    | 0, _ => rfl
+    | 1, _ => rfl
+  obtain ⟨h1, _⟩ := forward_every_target he hf i _ hti
+  refine ⟨_, _, h1, ?_⟩
+  show (sink xo xfs (send xso xsrcs)).1 [[119], [100], [116], [101]] = _
   decide +kernel
 
 end PdshVerif.Props.C11
